@@ -31,6 +31,9 @@ MUTANTS = [
     F("C06", "parse_v2 returns a list", K,
       "        while True:\n            buf = reader.read(KEVENT_SIZE)\n            if not buf:\n                break\n            yield from_kd_buf(buf)",
       "        out = []\n        while True:\n            buf = reader.read(KEVENT_SIZE)\n            if not buf:\n                break\n            out.append(from_kd_buf(buf))\n        return out", "R3"),
+    F("C06", "process filter as a list comprehension over the trace stream", P,
+      "            trace_generator = filter(self._filter_process_callback, trace_generator)",
+      "            trace_generator = [t for t in trace_generator if self._filter_process_callback(t)]", "R3"),
     N("C06", "len(buf) == 0 form", K, "            if not buf:\n                break", "            if buf == b'':\n                break"),
     N("C06", "seek_until returns False at EOF handled by raise in a helper form", K,
       "        if not byte:\n            raise EOFError(f'{data!r} was not found before the end of the stream')",
